@@ -74,13 +74,14 @@ type runCfg struct {
 	slowRate     int
 	writeErrRate int
 	textBias     bool // C14: favour generation over cache pressure
+	vision       bool // C07: the model is a model.MultimodalProcessor, prompts carry [img-n] tags
 }
 
 func (c *runCfg) String() string {
 	kind := [...]string{"causal", "swa", "wrapper(swa+causal)"}[c.cacheKind]
 	shift := [...]string{"ok", "unsupported", "fn-fails", "alloc-fails"}[c.shiftMode]
-	return fmt.Sprintf("arm=%d parallel=%d ctx=%d batch=%d multiuser=%v cache=%s window=%d shift=%s erase=%d padding=%d permutedV=%v maskF16=%v maskBatchPad=%d maxNodes=%d layers=%d k=%d v=%d heads=%d clients=%d x%d cancel=1/%d slow=1/%d writeErr=1/%d",
-		c.arm, c.parallel, c.numCtx, c.batch, c.multiUser, kind, c.window, shift, c.eraseMode, c.cc.CachePadding, c.cc.PermutedV, c.cc.MaskDType == ml.DTypeF16, c.cc.MaskBatchPadding, c.maxNodes, c.layers, c.kDim, c.vDim, c.heads, c.nClients, c.reqPerClient, c.cancelRate, c.slowRate, c.writeErrRate)
+	return fmt.Sprintf("arm=%d vision=%v parallel=%d ctx=%d batch=%d multiuser=%v cache=%s window=%d shift=%s erase=%d padding=%d permutedV=%v maskF16=%v maskBatchPad=%d maxNodes=%d layers=%d k=%d v=%d heads=%d clients=%d x%d cancel=1/%d slow=1/%d writeErr=1/%d",
+		c.arm, c.vision, c.parallel, c.numCtx, c.batch, c.multiUser, kind, c.window, shift, c.eraseMode, c.cc.CachePadding, c.cc.PermutedV, c.cc.MaskDType == ml.DTypeF16, c.cc.MaskBatchPadding, c.maxNodes, c.layers, c.kDim, c.vDim, c.heads, c.nClients, c.reqPerClient, c.cancelRate, c.slowRate, c.writeErrRate)
 }
 
 func drawRunCfg(prop, tier string) *runCfg {
@@ -164,6 +165,16 @@ func drawRunCfg(prop, tier string) *runCfg {
 			c.cancelRate = 4
 		}
 	}
+	// one C07 run in four drives the multimodal input path (Server.inputs with [img-n] tags,
+	// EncodeMultimodal / PostTokenize, MultimodalHash in the prefix comparison, SameBatch groups)
+	c.vision = prop == "C07" && d("vision", 4) == 0
+	if c.vision && c.cacheKind != cacheCausal && c.batch < 4 && d("vision-small-batch", 4) != 0 {
+		// A batch that a SameBatch group extends beyond the configured batch size does not fit
+		// a sliding-window cache (sized window + batch per sequence): the run loop dies (open
+		// finding panic:run-loop:kv-cache-full:batch-extended-beyond-batch-size). Three
+		// windowed vision runs in four stay clear of it so that the search goes on behind it.
+		c.batch = 4
+	}
 	return c
 }
 
@@ -242,9 +253,13 @@ func (w *runWorld) newServer(name string, parallel, batch int, clean bool) *simS
 	m.Base = model.NewBaseForVerif(srv.be, srv.rec)
 	srv.m = m
 
-	s := &Server{batchSize: batch, model: m, parallel: parallel, status: llm.ServerStatusReady}
+	var mm model.Model = m
+	if cfg.vision {
+		mm = &visionModel{m}
+	}
+	s := &Server{batchSize: batch, model: mm, parallel: parallel, status: llm.ServerStatusReady}
 	var err error
-	s.cache, err = NewInputCache(m, cfg.kvType, int32(cfg.numCtx*parallel), parallel, batch, cfg.multiUser)
+	s.cache, err = NewInputCache(mm, cfg.kvType, int32(cfg.numCtx*parallel), parallel, batch, cfg.multiUser)
 	if err != nil {
 		panic(err)
 	}
@@ -276,7 +291,13 @@ func (srv *simServer) start() {
 				if err, ok := r.(error); ok && srv.isBatchError(err) {
 					srv.fatal = err.Error()
 					verifsim.Probe("runner_fatal_batch_error")
-					if cl := fatalClass(srv.fatal); cl != "injected-backend-failure" {
+					cl := fatalClass(srv.fatal)
+					if cl == "kv-cache-full" && srv.rec.lastFullRows > srv.s.batchSize {
+						// the refused batch was larger than the batch size the cache was initialised
+						// for: a SameBatch group extended it (vision runs only)
+						cl = "kv-cache-full:batch-extended-beyond-batch-size"
+					}
+					if cl != "injected-backend-failure" {
 						srv.w.violate("C07", "panic", "panic:run-loop:"+cl, "%s: the run loop panicked with a processBatch error (the runner process dies): %s\n  slots: %s", srv.name, srv.fatal, srv.slotSummary())
 					}
 					return
@@ -360,6 +381,37 @@ type reqState struct {
 	unresolved bool // a reference run did not finish within its budget
 }
 
+// promptString renders a prompt for the scripted tokenizer: tokens as decimal numbers, a
+// negative entry -(k+1) as the tag [img-k] (image k of the run's pool; vision runs only).
+func promptString(t []int32) string {
+	var sb strings.Builder
+	for i, x := range t {
+		if i > 0 {
+			sb.WriteByte(' ')
+		}
+		if x < 0 {
+			fmt.Fprintf(&sb, "[img-%d]", -x-1)
+		} else {
+			sb.WriteString(strconv.Itoa(int(x)))
+		}
+	}
+	return sb.String()
+}
+
+// promptImages lists the images a prompt refers to, each once, in the order of the pool.
+func (w *runWorld) promptImages(t []int32) []llm.ImageData {
+	var out []llm.ImageData
+	for k := range w.images {
+		for _, x := range t {
+			if x == int32(-k-1) {
+				out = append(out, llm.ImageData{ID: k, Data: w.images[k]})
+				break
+			}
+		}
+	}
+	return out
+}
+
 func tokensString(t []int32) string {
 	var sb strings.Builder
 	for i, x := range t {
@@ -372,7 +424,7 @@ func tokensString(t []int32) string {
 }
 
 func (r *reqState) String() string {
-	p := tokensString(r.prompt)
+	p := promptString(r.prompt)
 	if len(p) > 120 {
 		p = p[:120] + "..."
 	}
@@ -428,6 +480,7 @@ type runWorld struct {
 	v       *vocab
 	main    *simServer
 	bases   [][]int32
+	images  [][]byte // vision runs: the pool of images prompts refer to
 	reqs    []*reqState
 	nDone   int // clients finished
 	desc    []string
@@ -498,7 +551,23 @@ func (w *runWorld) drawToken() int32 {
 	if n < 1 {
 		return 0
 	}
+	if len(w.images) > 0 && verifsim.Draw("img?", 6) == 0 {
+		verifsim.Probe("image_in_prompt")
+		return int32(-1 - verifsim.Draw("img", len(w.images)))
+	}
 	return int32(1 + verifsim.Draw("tok", n))
+}
+
+// drawImages fills the pool of a vision run. data[0] decides how many following inputs the
+// image needs in its batch (SameBatch 0..3), data[1] is the index, data[2] makes the content
+// differ between runs.
+func (w *runWorld) drawImages() {
+	if !w.cfg.vision {
+		return
+	}
+	for k, n := 0, 1+verifsim.Draw("nimages", 3); k < n; k++ {
+		w.images = append(w.images, []byte{byte(verifsim.Draw("img-same", 4)), byte(k), byte(verifsim.Draw("img-bits", 250))})
+	}
 }
 
 func (w *runWorld) drawTokens(n int) []int32 {
@@ -650,7 +719,7 @@ func (w *runWorld) doRequest(srv *simServer, r *reqState) {
 	opts.NumPredict = r.numPredict
 	opts.NumKeep = r.numKeep
 	opts.Stop = r.stops
-	body, err := json.Marshal(llm.CompletionRequest{Prompt: tokensString(r.prompt), Options: &opts})
+	body, err := json.Marshal(llm.CompletionRequest{Prompt: promptString(r.prompt), Images: w.promptImages(r.prompt), Options: &opts})
 	if err != nil {
 		panic(err)
 	}
@@ -751,6 +820,7 @@ func runRunner(t *testing.T, tape *verifsim.Tape, prop, tier string, keepLog boo
 		cfg := drawRunCfg(prop, tier)
 		w := &runWorld{t: t, prop: prop, tier: tier, cfg: cfg, other: map[string]int{}}
 		w.v = drawVocab(tier)
+		w.drawImages()
 		w.drawBases()
 		w.note("config: %s", cfg)
 		w.note("%s", w.v.describe())
